@@ -46,7 +46,7 @@ fn short_prefix(evs: &[Ev]) -> usize {
             Ev::Chunk(c) if c.len() >= 3 => break,
             Ev::Chunk(c) => n += c.len(),
             Ev::Intr => {}
-            Ev::Fail(_) => break,
+            Ev::Fail(_) | Ev::Eof => break,
         }
     }
     n
